@@ -5,23 +5,32 @@
    model of TmplModel.v.  For the printed text of every AST that satisfies the boolean [wf_template] it returns exactly
    the documented expansion [expand] -- without an error, i.e. with every access of both models inside its array.
 
-   Fragment covered by [wf_template] (TfullModel.v): text, {var:}, {raw:}, <loop> with set / value / group / sort,
-   nested up to the 8-bit Level.  The statement for all constructors is kept as [c02_full_statement]. *)
+   Fragment covered by [wf_template] (TfullModel.v): text, {var:}, {raw:}, {math:expr}, <if case=expr> with else-if / else
+   cases, <loop> with set / value / group / sort, nested (loops up to the 8-bit Level); expressions are the integer fragment of
+   TmplModel (naturals below 10^19, variables, parenthesised binary expressions with the operators + - * == != < > <= >= && ||).
+   Expression evaluation of the instance ([jv_math] / [jv_cond], TfullModel.v) is TmplModel.eval_expr transcribed to the
+   QExpression arrays the parser model builds ([qexpr_of]); [TfullSem.q_top_expr] proves the two equal.
+   Not covered yet: {svar:} and the inline if.  The statement for all constructors is kept as [c02_full_statement]. *)
 From Coq Require Import NArith List Bool.
 From Qv Require Import gen.Tables EscapeModel TmplModel TmplRender TmplProofs TparseModel TrenderModel TrenderProofs TrenderInst
-  TfullModel TfullSem TfullParse.
+  TfullModel TfullSem TfullParse TfullExpr TfullNum TfullParseMain.
 Import ListNotations.
 
-Theorem c02_full_loops : forall auto w root ast, wf_template ast = true ->
+Theorem c02_full_if_math : forall auto w root ast, wf_template ast = true ->
   render_all_jv auto w (print_nodes ast) root = ROk (expand auto w root ast).
 Proof.
   intros auto w root ast Hwf. unfold render_all_jv, render_all. rewrite (parse_print_full w ast Hwf).
   exact (render_tree_expand auto w root ast Hwf).
 Qed.
 
+(* the earlier name (the fragment of phase 3 is included in the present one) *)
+Corollary c02_full_loops : forall auto w root ast, wf_template ast = true ->
+  render_all_jv auto w (print_nodes ast) root = ROk (expand auto w root ast).
+Proof. exact c02_full_if_math. Qed.
+
 (* the full statement, instantiated with the well-formedness predicate proved so far *)
 Corollary c02_full_wf_template : c02_full_statement wf_template.
-Proof. unfold c02_full_statement. exact c02_full_loops. Qed.
+Proof. unfold c02_full_statement. exact c02_full_if_math. Qed.
 
 (* the two halves, for reference *)
 Definition c02_parse_print := parse_print_full.      (* parse_model w (print_nodes ast) = Ok (tree_of_full ast) *)
@@ -36,4 +45,12 @@ Example wf_template_example :
         TLoop None [118]%N [103]%N 2 [TRaw ([118]%N, []); TVar ([105;116]%N, [[107]%N; [48]%N])];
         TText [59]%N];
      TVar ([110;49]%N, [])] = true.
+Proof. reflexivity. Qed.
+
+(* ... with expressions:  <if case="({var:n} + 2) * 3 >= {var:list[0]}">{math:{var:n} - 1}<else if case="{var:s} == 7">b<else>c</if> *)
+Example wf_template_example2 :
+  wf_template
+    [TIf (EBin 8 (EBin 2 (EBin 0 (EVar ([110]%N, [])) (ENum 2)) (ENum 3)) (EVar ([108;105;115;116]%N, [[48]%N])))
+         [TMath (EBin 1 (EVar ([110]%N, [])) (ENum 1))]
+         [(Some (EBin 3 (EVar ([115]%N, [])) (ENum 7)), [TText [98]%N]); (None, [TText [99]%N])]] = true.
 Proof. reflexivity. Qed.
